@@ -63,7 +63,7 @@ PROPS = {
         comps={"outcome", "bank", "resp"}, triggers=_CS_TRIGGERS, assumptions=_CS_ASSUME),
     "C09": dict(
         suite="coinswap", modules=["CantoVerif.Props.C09", "CantoVerif.Props.C09Monitors"] + _CS_BRIDGE_MODULES,
-        theorems=["CV.Coinswap.swap_caps_pool", "CV.Coinswap.swap_whitelist_cap_monitor", "CV.Coinswap.swap_caps", "CV.Coinswap.no_module_recipient", "CV.Coinswap.no_module_recipient_monitor", "CV.Coinswap.blocked_any_form",
+        theorems=["CV.Coinswap.swap_caps_pool", "CV.Coinswap.swap_whitelist_cap_monitor", "CV.Coinswap.add_whitelist_monitor", "CV.Coinswap.autoSwap_whitelist_monitor", "CV.Coinswap.swap_caps", "CV.Coinswap.no_module_recipient", "CV.Coinswap.no_module_recipient_monitor", "CV.Coinswap.blocked_any_form",
                   "CV.Coinswap.add_caps", "CV.Coinswap.pools_against_standard", "CV.Coinswap.wf_step", "CV.Coinswap.quoteLeg_fst"] + _CS_BRIDGE_CORE,
         comps={"outcome", "bank"}, triggers=_CS_TRIGGERS, assumptions=_CS_ASSUME),
 }
